@@ -70,6 +70,7 @@ def _job(job):
         # assoc = 0 on prefix rows and != 0 on infix rows (decided by the Lean function the theorem is stated with)
         reply = drv.ask('(tagcheck ' + ' '.join(bodies) + ')')
         out['tagcheck'] = reply
+    t_start = rr._TIMEOUTS['total']
     for entry in job.get('entries', ['start']):
         cases = job['cases']
         req = rr.core_request(w, bodies, ign, w.index[entry], cases, fuel)
@@ -94,6 +95,10 @@ def _job(job):
             g, p = rr.parse_reply_item(item)
             if spec_items is not None:
                 _, p = rr.parse_reply_item(spec_items[ci])
+            if rr._TIMEOUTS['total'] - t_start >= 4:
+                # this grammar hangs the implementation again and again: the time-outs already recorded are the verdict,
+                # the remaining cases would only make the check take for ever
+                break
             real = rr.run_real(parse, text, pos, spans=True)
             out['n_cases'] += 1
             if not spans:
